@@ -160,12 +160,29 @@ impl Check for LpCustody {
     }
     fn strategy(&self, tier: Tier) -> BoxedStrategy<Case> {
         let max_ops = tier.pick(40usize, 120usize);
-        (
+        let free = (
             prop_oneof![Just(LpKind::Cw20), Just(LpKind::Native), Just(LpKind::PairLp), Just(LpKind::PairLpCw20)],
             prop::collection::vec(op(), 2..max_ops),
         )
             .prop_map(|(lp, ops)| Case { lp, ops })
-            .boxed()
+            .boxed();
+        // directed shape: one address accumulates many closed positions (open and close the same duration
+        // over and over without withdrawing), waits, and withdraws
+        let many_closed = (prop_oneof![Just(LpKind::Cw20), Just(LpKind::Native)], 0u8..4, Just(0u8), 21usize..30, gen::amount(1, 1u128 << 40), prop::collection::vec(op(), 0..8))
+            .prop_map(|(lp, user, dur, n, amount, tail)| {
+                let mut ops = vec![];
+                for i in 0..n {
+                    ops.push(Op::Position { expand: false, user, amount: Uint128::new(amount + i as u128), provided: Provided::Exact, dur, receiver: None });
+                    ops.push(Op::Close { user, dur, pick: None });
+                }
+                ops.push(Op::NewEpoch { n: 4 });
+                ops.push(Op::Withdraw { user });
+                ops.push(Op::Withdraw { user });
+                ops.extend(tail);
+                Case { lp, ops }
+            })
+            .boxed();
+        prop_oneof![14 => free, 1 => many_closed].boxed()
     }
     fn cases(&self, tier: Tier) -> u32 {
         tier.pick(40_000, 2_000_000)
